@@ -502,20 +502,26 @@ Proof.
       rewrite <- Henv. fold bank1. lia.
 Qed.
 
+Lemma run_S f w s m rest tr :
+  run (S f) w ((s, m) :: rest) tr
+  = bind (step_msg w s m) (fun r => run f (fst r) (snd r ++ rest) (tr ++ [(s, m)])).
+Proof. reflexivity. Qed.
+
+Lemma run_nil f w tr : run f w [] tr = Some (w, tr).
+Proof. destruct f; reflexivity. Qed.
+
 Lemma tx_rwinv d0 w s target m funds w' tr :
   s <> A_reward -> REnv d0 w -> REnv d0 w' -> RWInv w ->
   run tx_fuel w [(s, MWasm target m funds)] [] = Some (w', tr) -> RWInv w'.
 Proof.
-  intros Hs HE HE' HI H. change tx_fuel with (S 399) in H. cbn [run] in H.
+  intros Hs HE HE' HI H. unfold tx_fuel in H. rewrite run_S in H.
   bind_inv H as x Hx. destruct x as [w1 out]. cbn [fst snd] in H. rewrite app_nil_r in H.
   destruct (root_step d0 _ _ _ _ _ Hs HE HI Hx) as [HJ | [-> Hr]].
   - apply (J_final d0). eapply (run_preserves_stack (J d0)); [|exact HJ | exact H].
     intros. eapply step_msg_J; eauto.
-  - destruct 399%nat; cbn [run] in H; inversion H; subst.
-    + intros r1 Hr1. destruct (Hr r1 Hr1) as [Hcore Hb]. destruct (HE' r1 Hr1) as (Hd & _).
-      rewrite Hd. split; assumption.
-    + intros r1 Hr1. destruct (Hr r1 Hr1) as [Hcore Hb]. destruct (HE' r1 Hr1) as (Hd & _).
-      rewrite Hd. split; assumption.
+  - rewrite run_nil in H. inversion H; subst.
+    intros r1 Hr1. destruct (Hr r1 Hr1) as [Hcore Hb]. destruct (HE' r1 Hr1) as (Hd & _).
+    rewrite Hd. split; assumption.
 Qed.
 
 Lemma rwinv_env w e :
